@@ -262,3 +262,19 @@ Proof.
   - apply decode_pack; auto; lia.
   - rewrite Nat.mul_comm. symmetry. apply Nat.div_mul. lia.
 Qed.
+
+(* ---------------------------------------------------------------------------------------------------------- *)
+(* half rate: taking every second sample of the whole program = taking every second sample of every piece,
+   because every piece has an even number of samples *)
+Lemma evens_app : forall k (A : Type) (a b : list A), length a = (2 * k)%nat -> evens (a ++ b) = evens a ++ evens b.
+Proof.
+  induction k as [|k IH]; intros A a b H.
+  - destruct a; [reflexivity|discriminate].
+  - destruct a as [|x [|y a]]; cbn in H; try lia. cbn [app evens]. rewrite IH by lia. reflexivity.
+Qed.
+
+Lemma evens_concat {A} (l : list (list A)) :
+  Forall (fun a => exists k, length a = (2 * k)%nat) l -> evens (concat l) = concat (map evens l).
+Proof.
+  induction 1 as [|a l [k Hk] _ IH]; [reflexivity|]. cbn [concat map]. now rewrite (evens_app k), IH.
+Qed.
